@@ -56,6 +56,9 @@ CLAIMED = {
     "C16": ("exploration",
             "The whole application of C14; pip:try issued through the real terminal service with generated bodies (failing command at any position, nested tasks that succeed or fail after a simulated delay) and every subset of success / fail / finally handlers, handlers that themselves fail; oracle over the probe event log: handler iff outcome, finally always, every handler event later than every event of the body and of the tasks it spawned, the surrounding (session) scope holds an error iff a handler failed.",
             "Sampling. One known finding (a failing handler cancels the other handlers) is matched by its shape and reported as KNOWN-FINDING; all other clauses stay judged in those runs."),
+    "C19": ("exploration",
+            "Generated template sets (helpers, layouts, views with define names overlapping across layers and views) in a memfs and request sequences Base / Layout / View for the HTML and the text provider; sequential shape: cached and uncached providers side by side, every name rendered and compared with the layering rule (most specific layer wins, foreign views' and views' definitions invisible where they must be, asking twice agrees); concurrent shape: 2-5 tasks use one cached provider from its first use on under the seeded scheduler, all must get equivalent templates, no panic, and the happens-before probe must see no unsynchronised access to the cache maps.",
+            "Sampling. The map probe replaces the Go runtime's own concurrent-map check, which cannot fire under serialised execution; races on plain pointers (the unlocked baseTemplate read) are outside its reach."),
 }
 
 NOT_APPLICABLE = {
